@@ -16,12 +16,12 @@ import fastavro._read_py as R
 import fastavro.io.json_encoder as JE
 import fastavro.io.json_decoder as JD
 
-SCHEMAS = ["rec_defaults4", "rec_defaults5", "rec_defaults6", "rec_defaults3", "prim_int", "prim_string", "prim_null", "prim_bytes", "prim_double", "prim_boolean", "enum", "fixed", "rec_flat",
+SCHEMAS = ["rec_defaults4", "rec_defaults5", "rec_defaults6", "rec_defaults7", "rec_dictnull", "rec_defaults3", "prim_int", "prim_string", "prim_null", "prim_bytes", "prim_double", "prim_boolean", "enum", "fixed", "rec_flat",
            "rec_empty", "rec_floats", "rec_defaults", "rec_defaults2", "pair_array_int", "pair_array_record", "pair_map_long",
            "pair_map_record", "pair_array_union", "pair_map_union", "pair_field_union", "pair_field_map", "pair_field_array",
            "union_prims", "union_two_recs", "union_named_mix", "union_arr_map", "chain_arr_arr", "chain_rec_union_rec_arr",
            "ref_after_def", "ns_inherit", "ns_dotted", "rec_list", "rec_tree", "rec_mutual", "map_key_is_field", "err_type"]
-QUICK = ["prim_int", "prim_bytes", "enum", "fixed", "rec_flat", "rec_empty", "rec_defaults", "rec_defaults4", "rec_defaults5", "rec_defaults6", "pair_array_record", "pair_map_long",
+QUICK = ["prim_int", "prim_bytes", "enum", "fixed", "rec_flat", "rec_empty", "rec_defaults", "rec_defaults4", "rec_defaults5", "rec_defaults6", "rec_defaults7", "rec_dictnull", "pair_array_record", "pair_map_long",
          "pair_field_union", "union_two_recs", "union_named_mix", "ref_after_def", "ns_inherit", "rec_list", "rec_tree",
          "map_key_is_field", "pair_map_union"]
 
